@@ -13,6 +13,7 @@ import (
 	"runtime"
 	"runtime/debug"
 	"sort"
+	"strings"
 	"sync"
 	"time"
 )
@@ -23,6 +24,7 @@ type Thread struct {
 	exited  chan struct{}
 	done    bool
 	daemon  bool
+	work    bool // branched on in the explorer's workload-thread phase: harness threads and the library goroutines named in WorkDaemons
 	killed  bool
 	yielded bool
 	pauses  int         // number of voluntary yields so far: threads that poll get lower default priority (fairness)
@@ -34,12 +36,13 @@ type Thread struct {
 
 // Point is one explorer choice point (only recorded when more than one alternative exists).
 type Point struct {
-	N          int  // number of alternatives
-	Chosen     int  // index taken
-	CurEnabled bool // the running thread could have continued (switching away costs a preemption)
-	Voluntary  bool // the running thread yielded voluntarily / exited / made an environment choice
-	Env        bool // environment choice (Choose), not a thread switch
-	Tid        int  // thread chosen (or -1 for Env)
+	N          int    // number of alternatives
+	Chosen     int    // index taken
+	CurEnabled bool   // the running thread could have continued (switching away costs a preemption)
+	Voluntary  bool   // the running thread yielded voluntarily / exited / made an environment choice
+	Env        bool   // environment choice (Choose), not a thread switch
+	Tid        int    // thread chosen (or -1 for Env)
+	Work       uint64 // bit k: alternative k is a workload thread (spawned by the harness), not a library goroutine
 }
 
 type Exec struct {
@@ -51,6 +54,8 @@ type Exec struct {
 	idle     int
 	Deadlock bool
 	Diverged bool
+	Policy   int // default-order policy of this execution (see Policy)
+	FocusAt  int // number of choice points passed when the harness called Focus (0: never): the explorer branches only from there on
 	Pruned   bool
 	Failure  string
 	chans    map[uintptr]*chanState
@@ -67,9 +72,9 @@ var debugTimers = os.Getenv("VSCHED_DEBUG_TIMERS") != ""
 
 type vtimer struct {
 	stack string
-	at   time.Time
-	fire func()
-	done bool
+	at    time.Time
+	fire  func()
+	done  bool
 }
 
 // fireTimer fires the earliest pending virtual timer (only called at quiescence): virtual time jumps to it.
@@ -100,6 +105,10 @@ type Options struct {
 	OnPoint   func(e *Exec, key uint64) bool // return false to abort (state already explored)
 }
 
+// Policy selects the default order among the threads other than the running one (a choice list is only meaningful
+// under the policy it was recorded with): 0 = fewest voluntary yields first; 1 = library goroutines first, then 0.
+var Policy int
+
 var E *Exec // nil => free-running mode
 var keepTrace bool
 var epoch uint64
@@ -119,10 +128,10 @@ func Run(prefix []int, o Options, body func()) *Exec {
 	if o.MaxSteps == 0 {
 		o.MaxSteps = 200000
 	}
-	e := &Exec{prefix: prefix, chans: map[uintptr]*chanState{}, clock: clockEpoch, MaxSteps: o.MaxSteps, OnPoint: o.OnPoint}
+	e := &Exec{prefix: prefix, chans: map[uintptr]*chanState{}, clock: clockEpoch, MaxSteps: o.MaxSteps, OnPoint: o.OnPoint, Policy: Policy}
 	keepTrace = o.KeepTrace
 	epoch++
-	t0 := &Thread{ID: 0, wake: make(chan struct{}, 1), exited: make(chan struct{})}
+	t0 := &Thread{ID: 0, work: true, wake: make(chan struct{}, 1), exited: make(chan struct{})}
 	e.threads = []*Thread{t0}
 	e.cur = t0
 	E = e
@@ -190,7 +199,13 @@ func (e *Exec) enabledList() []*Thread {
 	}
 	// fair default order: among the other threads, those that yielded (polled) less often come first, so that
 	// two polling threads cannot starve a runnable one under the default schedule
-	sort.SliceStable(en[k:], func(i, j int) bool { return en[k+i].pauses < en[k+j].pauses })
+	sort.SliceStable(en[k:], func(i, j int) bool {
+		a, b := en[k+i], en[k+j]
+		if e.Policy == 1 && a.daemon != b.daemon {
+			return a.daemon // policy 1: library goroutines (indexers, syncers, ...) run before the harness's threads
+		}
+		return a.pauses < b.pauses
+	})
 	return en
 }
 
@@ -265,7 +280,13 @@ func (e *Exec) schedule(t *Thread, voluntary bool) {
 	ch := 0
 	if len(en) > 1 {
 		ch = e.choose(len(en))
-		e.Points = append(e.Points, Point{N: len(en), Chosen: ch, CurEnabled: curEnabled, Voluntary: voluntary, Tid: en[ch].ID})
+		var work uint64
+		for k, x := range en {
+			if x.work && k < 64 {
+				work |= 1 << uint(k)
+			}
+		}
+		e.Points = append(e.Points, Point{N: len(en), Chosen: ch, CurEnabled: curEnabled, Voluntary: voluntary, Tid: en[ch].ID, Work: work})
 		if e.OnPoint != nil && len(e.Points) > len(e.prefix) && !e.OnPoint(e, e.stateKey(en[ch])) {
 			e.Pruned = true
 			e.fail(t, "pruned")
@@ -392,7 +413,17 @@ func spawn(f func(), daemon bool) {
 		return
 	}
 	p.nspawn++
-	t := &Thread{ID: len(e.threads), wake: make(chan struct{}, 1), exited: make(chan struct{}), daemon: daemon, H: mix(mix(p.H, 99), p.nspawn), What: "start"}
+	t := &Thread{ID: len(e.threads), wake: make(chan struct{}, 1), exited: make(chan struct{}), daemon: daemon, work: !daemon, H: mix(mix(p.H, 99), p.nspawn), What: "start"}
+	if daemon && len(WorkDaemons) > 0 {
+		if pc, _, _, ok := runtime.Caller(2); ok {
+			name := runtime.FuncForPC(pc).Name()
+			for _, w := range WorkDaemons {
+				if strings.Contains(name, w) {
+					t.work = true
+				}
+			}
+		}
+	}
 	p.H = mix(p.H, 98)
 	e.threads = append(e.threads, t)
 	go func() {
@@ -430,6 +461,10 @@ func spawn(f func(), daemon bool) {
 	}()
 	Yield("spawn")
 }
+
+// WorkDaemons (set by a harness before exploring): library goroutines started from a function whose name contains
+// one of these strings are treated like workload threads by the explorer's workload-thread phase.
+var WorkDaemons []string
 
 // Go is what rewritten `go` statements call (library goroutines are daemons).
 func Go(f func()) { spawn(f, true) }
@@ -487,6 +522,14 @@ func Sleep(d time.Duration) {
 		return
 	}
 	Pause("sleep")
+}
+
+// Focus marks the end of the scenario's setup phase (harness only): scheduling alternatives of earlier choice points
+// are not explored, the setup always runs under the default schedule.
+func Focus() {
+	if E != nil && E.FocusAt == 0 {
+		E.FocusAt = len(E.Points)
+	}
 }
 
 // Advance moves the virtual clock (harness only).
